@@ -81,6 +81,11 @@ def run(ctx, R, parts=('S', 'R', 'B')):
     if 'B' not in parts:
         return
     # C11.B constructors
+    # the section of an accepted header is its payload after the address block: INV2 (incl. address kind = wire family) and the tlv_bytes view
+    from spec import inv
+    from rules import C14 as C14mod
+    inv.establish_inv2(ctx, R, 'C11.B')
+    C14mod.views(ctx, R, names=('tlv_bytes',))
     pf = ctx.method(TLVS, 'from', 'std::convert::From<&[u8]>')
     ev, fouts = ctx.entry(pf)
     if fouts:
